@@ -304,7 +304,8 @@ def run(ctx):
             (("C", "C", "I"), (), 1, False, "eval", "call"), (("C", "C", "C"), ("C",), 1, False, "eval", "call"),
             (("C", "C"), ("C",), 1, True, "eval", "line"), (("I", "I"), (), 1, False, "eval", "call"),
             # the deep thread (3) beside a rich one: API-level switch points, higher bounds
-            (("I", "I"), (), 3, False, "all", "shallow:3", (0, 3)), (("C", "C"), (), 3, False, "all", "shallow:3", (0, 3)), (("I", "C"), (), 2, False, "all", "shallow:4", (3, 1)),
+            (("I", "I"), (), 3, False, "all", "shallow:2", (0, 3)), (("C", "C"), (), 3, False, "all", "shallow:2", (0, 3)), (("I", "C"), (), 2, False, "all", "shallow:3", (3, 1)),
+            (("I", "I"), (), 2, False, "all", "shallow:3", (0, 3)),
             (("I", "I"), (), 1, False, "eval", "call", (0, 3)), (("C", "C"), (), 1, False, "all", "call", (1, 3)),
         ]
     else:
@@ -314,9 +315,9 @@ def run(ctx):
             (("C", "C"), (), 1, False, "eval", "line"),
             (("I", "I"), (), 0, False, "all", "call"),
             (("C", "C", "I"), (), 0, False, "all", "call"),
-            # the deep thread (3) beside a rich one: API-level switch points, two preemptions
-            (("I", "I"), (), 2, False, "all", "shallow:3", (0, 3)),
-            (("C", "C"), (), 2, False, "all", "shallow:3", (0, 3)),
+            # the deep thread (3) beside a rich one: API-level switch points (an API function and what it calls directly), two preemptions
+            (("I", "I"), (), 2, False, "all", "shallow:2", (0, 3)),
+            (("C", "C"), (), 2, False, "all", "shallow:2", (0, 3)),
         ]
     # solo references: fresh fork, cross-checked against a fresh python subprocess
     solos = {}
@@ -350,13 +351,20 @@ def run(ctx):
     total_exec = total_trans = 0
     distinct = set()
     per_cfg = {}
+    only = os.environ.get("VERIF_C16_ONLY")          # debugging aid: comma-separated indices into the plan
+    if only:
+        plan = [plan[int(i)] for i in only.split(",")]
+    import time
     for entry in plan:
+        t0 = time.time()
         mix, warm, bound, opcode, window, gran = entry[:6]
         tids = tuple(entry[6]) if len(entry) > 6 else tuple(range(len(mix)))
         cfg = (mix, nevals if ((gran == "call" and bound < 2) or gran.startswith("shallow")) else 1, warm, opcode, gran, (window if window != "all" else None), tids)
         label = f"{''.join(mix)}{'' if tids == tuple(range(len(mix))) else '[threads ' + ','.join(map(str, tids)) + ']'}/warm={''.join(warm) or '-'}/bound={bound}/window={window}/{gran}{'+opcode' if opcode else ''}"
         st = explore(ctx, cfg, bound, solos if cfg[1] == nevals else {k: v[:cfg[1]] for k, v in solos.items()}, label, window=window)
+        st["wall_s"] = round(time.time() - t0, 1)
         per_cfg[label] = st
+        sys.stderr.write(f"[C16] {label}: executed={st['executed']} maxpoints={st['maxpoints']} vectors={st['vectors']} wall={st['wall_s']}s\n")
         total_exec += st["executed"]
         total_trans += st["transitions"]
         ctx.part.case(nontrivial=True, n=st["executed"])
